@@ -33,8 +33,9 @@ P = {
          "Correspondence: random ADD programs on the real ADD class and the model.", "5 C10"),
  "C11": ("proof", "Theorems: modelled & and | evaluate to conjunction/disjunction for all nine operand shapes; data round trip. Correspondence on random operator trees.", "5 C11"),
  "C12": ("proof", "Theorems: fork/select/default/ofGroups/join act row-wise in the model. Correspondence incl. arbitrary integer group ids; join is a known finding (F10).", "5 C12"),
- "C13": ("proof", "Both kernels are instances of one polymorphic model function proved equal to the Shapley value over Q; double-precision agreement of the REBUILT extension with the "
-         "reference kernel is measured (bit-level and vs exact rationals) on a size ladder.", "5 C13"),
+ "C13": ("proof", "Both kernels are TRANSLATED from the source on every run and proved (i) equal to the model over Q and (ii) equal to each other at ANY scalar type with no algebraic law "
+         "(same operations in the same order, hence bit-identical in IEEE arithmetic: TIE_cy_eq_py_any); rounding-error theorems bound any reordering; agreement of the REBUILT extension with the "
+         "reference kernel, with the translated kernels (bit for bit) and with exact rationals is measured on a size ladder.", "5 C13"),
  "C14": ("proof", "Theorems: mean element-wise accuracy = accuracy; null element-wise mean = null score = min over constant predictors; ROC-AUC element-wise sums. Correspondence "
          "exhaustive over small label/prediction vectors vs sklearn metrics.", "5 C14"),
  "C15": ("other", "Logic skeleton proved (two-layer exception handler as a state machine: handled kinds map to null, others escape); WHICH exceptions scikit-learn raises on degenerate "
@@ -57,6 +58,10 @@ TECH = {
 }
 
 
+TIE_TECH = ("; the kernel functions this property rests on are additionally TRANSLATED from /repo's source to Lean on every run (harness/translate.py -> lean/Gen) "
+            "and proved equal to the model (lean/Tie), so the theorems are re-checked against the current source text")
+
+
 def main():
     checks = []
     na = []
@@ -77,17 +82,17 @@ def main():
                 engine="lean-model+correspondence",
                 level_claimed=dict(category=level, text=text, design_ref="DESIGN.md section " + ref),
                 level_note=PROOF_NOTE,
-                technique=TECH[level]))
+                technique=TECH[level] + (TIE_TECH if pid in leanio.TIE_PROPS else "")))
         else:
             na.append(dict(property_id=pid, reason="check not built yet in this round (planned, see DESIGN.md section 5)"))
     m = dict(
         version=1,
-        setup_cmd="cd lean && lake build Ds DsProofs dsdriver",
+        setup_cmd="(/venv/bin/python harness/translate.py || true) && cd lean && lake build Ds DsProofs dsdriver && (lake build Gen Tie gendriver || true)",
         hooks=dict(guard="DATASCOPE_VERIF", enable="none needed: the harness replaces module/instance attributes (clock, RandomState, kernel entry point, batch size) from outside",
                    baseline_off_cmd="cd /repo && /venv/bin/python -m pytest -ra -q -p no:cacheprovider --timeout=900 --continue-on-collection-errors",
                    source_commits=[], add_only=True),
         engines=[dict(name="lean-model+correspondence", path="lean/ + harness/", serves_properties=[c["property_id"] for c in checks],
-                      kind_free_text="Lean 4 model (lean/Ds), theorems (lean/DsProofs), native JSON-line driver, Python differential harness")],
+                      kind_free_text="Lean 4 model (lean/Ds), theorems (lean/DsProofs), source-to-Lean translator for the kernels (harness/translate.py, lean/Gen, lean/Tie), native JSON-line drivers, Python differential harness")],
         checks=checks,
         notes="Known findings: KNOWN_FINDINGS.json. fix: commits in /repo are listed there as 'fixed'.",
         not_applicable=na)
